@@ -4,6 +4,18 @@ from __future__ import annotations
 import sympy as sp
 
 
+class ScaledPhaseSpace:
+    """A configured, picklable phase-space model whose *bound method* is used as ``phsp_factor`` (any callable
+    (s, m1, m2) -> Expr is allowed): two instances give two different functions with one qualified name."""
+
+    def __init__(self, scale):
+        self.scale = scale
+
+    def rho(self, s, m1, m2):
+        import ampform.dynamics as D
+        return self.scale * D.PhaseSpaceFactor(s, m1, m2)
+
+
 def registry() -> dict[str, sp.Expr]:
     import ampform.dynamics as D
     from ampform.kinematics.phasespace import Kallen, Kibble
@@ -33,6 +45,9 @@ def registry() -> dict[str, sp.Expr]:
         out[f"pyhash-kallen:{tag}"] = Kallen(xr, yr, v)
         out[f"pyhash-q2:{tag}"] = D.BreakupMomentumSquared((xr + v) ** 2 + 5, yr, yr / 2)
         out[f"pyhash-sum:{tag}"] = PoolSum(Kallen(xr, sp.Symbol("i"), v) + v * yr, (sp.Symbol("i"), (1, 2)))
+    # family "boundmethod": the non-SymPy attribute is the same method of two differently configured objects
+    for tag, sc in (("two", 2), ("three", 3)):
+        out[f"boundmethod-width:{tag}"] = D.EnergyDependentWidth(s, m0, w0, m1, m2, 1, d, phsp_factor=ScaledPhaseSpace(sc).rho)
     # controls: genuinely different strings
     a, b = sp.symbols("a b", real=True)
     out["control:kibble"] = Kibble(a, b, 3 - a - b, 2, sp.Rational(1, 2), sp.Rational(1, 3), sp.Rational(1, 5))
